@@ -80,6 +80,9 @@ type Config struct {
 	Server   string      `json:"server"`
 	Plain    bool        `json:"plain"`
 	Remotes  [][2]string `json:"remotes,omitempty"` // name, password
+	// RemoteList, if not nil, is handed to LoginConfig.RemoteServers as it is (instead of a
+	// list built from Remotes): a caller configuring several logins from one shared slice
+	RemoteList []tds.LoginConfigRemoteServer `json:"-"`
 	// QueueSize is Info.ChannelPackageQueueSize: 0 = 1000 (roomy), -1 = 0 (unbuffered), n = n
 	QueueSize int `json:"package_queue_size,omitempty"`
 }
@@ -246,6 +249,9 @@ func (sess *Session) Login(cfg Config, s Script, ctxTimeout time.Duration) (res 
 	}
 	for _, r := range cfg.Remotes {
 		conf.RemoteServers = append(conf.RemoteServers, tds.LoginConfigRemoteServer{Name: r[0], Password: r[1]})
+	}
+	if cfg.RemoteList != nil {
+		conf.RemoteServers = cfg.RemoteList
 	}
 	ctx, cancel := context.WithTimeout(bg, ctxTimeout)
 	defer cancel()
